@@ -61,6 +61,9 @@ class Check:
         self.quiet = quiet
         self.files = {}
         self.selftest = None
+        # the quick tier runs the full configuration lattice except where it is expensive (C06: all per-term subsets,
+        # C13: every weight specification for both network kinds); thorough = full lattice + checker self-test
+        self.full = (tier == "thorough") or pid not in ("C06", "C13")
 
     # ---- declaring
     def rule(self, rid, text, floor=0):
